@@ -114,14 +114,35 @@ class Ctx:
         rc, out = sh(cmd, cwd=LEAN, timeout=timeout)
         return rc == 0, out
 
-    def forbidden_scan(self):
+    def import_cone(self, roots):
+        """Files of the lake project transitively imported from the given modules/files."""
+        seen, todo = {}, list(roots)
+        while todo:
+            m = todo.pop()
+            p = m if m.endswith(".lean") else os.path.join(LEAN, m.replace(".", "/") + ".lean")
+            if p in seen or not os.path.exists(p): continue
+            src = open(p).read()
+            seen[p] = src
+            for im in re.findall(r"^\s*(?:public\s+)?import\s+(?:all\s+)?(GopModel\.\S+)", src, re.M):
+                todo.append(im)
+        return seen
+
+    def forbidden_scan(self, roots=None):
         bad = []
-        for dp, dn, fn in os.walk(LEAN):
-            if ".lake" in dp: continue
-            for f in fn:
-                if not f.endswith(".lean"): continue
-                p = os.path.join(dp, f)
-                src = strip_comments(open(p).read())
+        if roots is None:
+            files = {}
+            for dp, dn, fn in os.walk(LEAN):
+                if ".lake" in dp: continue
+                for f in fn:
+                    if f.endswith(".lean"):
+                        files[os.path.join(dp, f)] = open(os.path.join(dp, f)).read()
+        else:
+            files = self.import_cone(roots)
+        if True:
+            for p, raw in files.items():
+                f = os.path.basename(p)
+                if True:
+                    src = strip_comments(raw)
                 for m in FORBIDDEN.finditer(src):
                     if f == "Loop.lean" and "partial" in m.group(0): continue  # the driver's IO loop only
                     bad.append("%s: %s" % (os.path.relpath(p, LEAN), m.group(0).strip()))
@@ -134,7 +155,15 @@ class Ctx:
         # obligations = property theorems (named Cxx_*); helper lemmas are audited too
         props = [n for n in names if n.split(".")[-1].startswith(self.pid + "_")] or names
         self.obligations += len(props)
-        bad = self.forbidden_scan()
+        # scan the import cone of the property module and of the driver executable only
+        drv_root = None
+        try:
+            lf = open(os.path.join(LEAN, "lakefile.toml")).read()
+            m = re.search(r'name\s*=\s*"%s"\s*\n\s*root\s*=\s*"([^"]+)"' % re.escape(self.driver_exe), lf)
+            if m: drv_root = os.path.join(LEAN, m.group(1) + ".lean")
+        except OSError:
+            pass
+        bad = self.forbidden_scan([prop_module] + ([drv_root] if drv_root else []))
         if bad:
             self.broken.append("forbidden construct(s): " + "; ".join(bad[:5]))
             return False
@@ -373,7 +402,7 @@ def standard(ctx, prop_module, harness, n_quick, n_thorough, rule, extract=(), c
     if outdir:
         ctx.load_stats(outdir)
         for key, case, detail in ctx.oracle_failures(outdir):
-            ctx.report_concrete(key, {"case": case, "detail": detail, "harness": harness,
+            ctx.report_concrete(key, {"case": case, "detail": detail, "harness": harness, "driver": driver,
                                       "how": "property predicate evaluated on the real implementation"})
         driver_ok = os.path.exists(os.path.join(LEAN, ".lake", "build", "bin", driver))
         if driver_ok:
@@ -388,5 +417,5 @@ def standard(ctx, prop_module, harness, n_quick, n_thorough, rule, extract=(), c
     if ctx.broken and not concrete_new:
         first = dis[0] if dis else None
         ctx.report_unproved("; ".join(ctx.broken[:4]),
-                            {"case": first[1], "impl": first[2], "model": first[3], "harness": harness} if first else {"harness": harness})
+                            {"case": first[1], "impl": first[2], "model": first[3], "harness": harness, "driver": driver} if first else {"harness": harness, "driver": driver})
     ctx.finish(level=level, rule=rule)
